@@ -227,6 +227,15 @@ def row_work(arg):
     prog.append(A.pr(S("--after--")))
     for n, _ in pv:
         prog.append(A.pr(V(n)))
+    # two separately built equal values: after comparing them their nested containers are still distinct cells
+    mk = lambda: A.lst(A.lst(I(0)), A.obj(("k", A.lst(I(1)))))
+    prog += [A.pr(S("--heap--")), A.Declare(V("fa"), mk()), A.Declare(V("fb"), mk()),
+             A.pr(A.Bin("==", V("fa"), V("fb"))), A.pr(A.Bin("!=", V("fb"), V("fa"))),
+             A.pr(A.Bin("===", A.Index(V("fa"), I(0)), A.Index(V("fb"), I(0)))),
+             A.pr(A.Bin("===", A.Index(V("fa"), I(1)), A.Index(V("fb"), I(1)))),
+             A.pr(A.Bin("===", A.Prop(A.Index(V("fa"), I(1)), "k", False), A.Prop(A.Index(V("fb"), I(1)), "k", False))),
+             A.Assign(A.Index(A.Index(V("fa"), I(0)), I(0)), I(9)), A.Assign(A.Index(A.Prop(A.Index(V("fa"), I(1)), "k", False), I(0)), I(8)),
+             A.pr(V("fb")), A.pr(A.Bin("==", V("fa"), V("fb")))]
     r = P.render(prog)
     o = core.run_one({"src": r.text, "trace": True})
     out = {"viol": [], "cells": {}, "n": len(cells), "sha": core.sha(r.text)[:12], "inconclusive": None, "same_cell": 0, "shared": 0}
@@ -241,6 +250,10 @@ def row_work(arg):
     text = o.out.decode("utf-8", "replace")
     before, _, rest = text.partition("--matrix--\n")
     mat, _, after = rest.partition("--after--\n")
+    after, _, heap = after.partition("--heap--\n")
+    want_heap = "true\nfalse\nfalse\nfalse\nfalse\n[\n    [\n        0,\n    ],\n    {\n        \"k\": [\n            1,\n        ],\n    },\n]\nfalse\n"
+    if heap != want_heap:
+        out["viol"].append(("heap-changed", "comparing two separately built equal values changed identity or contents of their nested containers: " + judge.first_diff(want_heap.encode(), heap.encode()), r.text))
     if before != after:
         out["viol"].append(("mutated", "a value prints differently after being compared: " + judge.first_diff(before.encode(), after.encode()), r.text))
     lines = mat.split("\n")[:-1]
